@@ -288,8 +288,11 @@ def check_build_filenames(repo: Path) -> None:
         if isinstance(n, (ast.Global, ast.Nonlocal)):
             fail(n, "build_filenames must not use global/nonlocal state")
     loops = [n for n in body_no_doc(fn) if isinstance(n, ast.For)]
-    if len(loops) != 1 or not (isinstance(loops[0].iter, ast.Attribute) and _is_name(loops[0].iter.value, "self")
-                               and loops[0].iter.attr == "save_data_to_file"):
+    aliases = {st.targets[0].id for st in body_no_doc(fn)
+               if isinstance(st, ast.Assign) and len(st.targets) == 1 and isinstance(st.targets[0], ast.Name)
+               and ast.unparse(st.value) == "self.save_data_to_file"}
+    if len(loops) != 1 or not (ast.unparse(loops[0].iter) == "self.save_data_to_file"
+                               or (isinstance(loops[0].iter, ast.Name) and loops[0].iter.id in aliases)):
         fail(fn, "build_filenames must iterate `self.save_data_to_file` in one top-level for loop")
     templates = []
     for n in ast.walk(fn):
@@ -412,7 +415,7 @@ def cb(b: bool) -> str:
     return 'true' if b else 'false'
 
 
-def render(excl: bool, writers, new_tab, old_tab, exts, flags=(True, False, False, False)) -> str:
+def render(excl: bool, writers, new_tab, old_tab, exts, flags) -> str:
     ws = "; ".join(f"({coq_str(w)}, {b})" for w, b in writers)
     nt = "; ".join(f"({FMT[k]}, {'None' if w is None else 'Some ' + coq_str(w)})" for k, w in new_tab)
     ot = "; ".join(f"({FMT[k]}, {coq_str(w)})" for k, w in old_tab)
@@ -453,15 +456,17 @@ def translate(repo: Path) -> str:
     return render(excl, writers, new_tab, old_tab, exts, flags)
 
 
+# the text for the unchanged tree (C19-F17a/b/c/d repaired)
 FALLBACK = render(
     True,
-    [("to_fits", "Raise"), ("to_hdf", "Overwrite"), ("to_npy", "Raise"), ("to_txt", "Overwrite"),
-     ("to_csv", "Overwrite"), ("to_png", "Raise"), ("to_jpg", "Raise"),
-     ("write_to_fits", "Skip"), ("write_to_jpg", "Skip"), ("write_to_npy", "Skip")],
+    [("to_fits", "Raise"), ("to_hdf", "Raise"), ("to_npy", "Raise"), ("to_txt", "Raise"),
+     ("to_csv", "Raise"), ("to_png", "Raise"), ("to_jpg", "Raise"),
+     ("write_to_fits", "Raise"), ("write_to_jpg", "Raise"), ("write_to_npy", "Raise")],
     [("fits", "write_to_fits"), ("npy", "write_to_npy"), ("hdf", None), ("txt", None), ("csv", None),
      ("png", None), ("jpg", "write_to_jpg"), ("jpeg", "write_to_jpg")],
     [("fits", "to_fits"), ("hdf", "to_hdf"), ("npy", "to_npy"), ("txt", "to_txt"), ("csv", "to_csv"),
      ("png", "to_png"), ("jpg", "to_jpg"), ("jpeg", "to_jpg")],
     [("to_fits", "fits"), ("to_hdf", "h5"), ("to_npy", "npy"), ("to_txt", "txt"), ("to_csv", "csv"),
      ("to_png", "png"), ("to_jpg", "jpg")],
+    (False, True, True, True),
 )
